@@ -3,6 +3,8 @@ import XrlCpp.Hand.Struct
 import XrlCpp.Spec.Table
 import XrlCpp.Lemmas.PE
 import XrlCpp.Lemmas.Own
+import XrlCpp.Lemmas.Table
+import XrlCpp.Lemmas.Value
 import XrlCpp.Gen.Tables
 /-!
 # Property C18 — the C++ wrappers return what C returns and throw exactly when C reports an error
@@ -33,6 +35,28 @@ theorem wrap_spec {A V W : Type} (pe : PE) (hpe : pe.Conforms) (cv : Conv V W) (
 theorem process_error_conforms : Gen.pe.Conforms :=
   PE.conformsB_sound Gen.pe (by decide)
 
+/-- **error_enum_as_modelled.**  The enumerators of `xrl_error_code` extracted from include/xraylib-error.h are the six
+    the model names, with the values the model gives them. -/
+theorem error_enum_as_modelled :
+    Gen.errorCodes = [("XRL_ERROR_MEMORY", XRL_ERROR_MEMORY), ("XRL_ERROR_INVALID_ARGUMENT", XRL_ERROR_INVALID_ARGUMENT),
+      ("XRL_ERROR_IO", XRL_ERROR_IO), ("XRL_ERROR_TYPE", XRL_ERROR_TYPE), ("XRL_ERROR_UNSUPPORTED", XRL_ERROR_UNSUPPORTED),
+      ("XRL_ERROR_RUNTIME", XRL_ERROR_RUNTIME)] := by decide
+
+/-- **process_error_every_code.**  For every enumerator the C library can put into an error object, by *name*, and
+    every message: the extracted `_process_error` throws `std::bad_alloc` (no message) for XRL_ERROR_MEMORY,
+    `std::invalid_argument(message)` for XRL_ERROR_INVALID_ARGUMENT and `std::runtime_error(message)` for
+    XRL_ERROR_IO, _TYPE, _UNSUPPORTED and _RUNTIME. -/
+theorem process_error_every_code :
+    ∀ c ∈ Gen.errorCodes, ∀ msg : String,
+      Gen.pe.exn ⟨c.2, msg⟩ = ⟨(specByName c.1).1, if (specByName c.1).2 then some msg else none⟩ := by
+  intro c hc msg
+  have h : Gen.pe.select c.2 = specByName c.1 :=
+    (by decide : ∀ c ∈ Gen.errorCodes, Gen.pe.select c.2 = specByName c.1) c hc
+  simp [PE.exn, h]
+
+/-- non-vacuity: six enumerators, and the three classes all occur -/
+example : Gen.errorCodes.length = 6 ∧ (Gen.errorCodes.map (fun c => (specByName c.1).1)).eraseDups.length = 3 := by decide
+
 /-- the two theorems combined: what every extracted wrapper does, given that it follows the protocol -/
 theorem wrap_spec_extracted {A V W : Type} (cv : Conv V W) (f : CFun A V) (a : A) :
     ((f a).slot = .empty ↔ (wrap Gen.pe cv f a).out = .ok (cv.conv (f a).val)) ∧
@@ -59,6 +83,111 @@ theorem wrapper_table_complete :
     (∀ p ∈ Gen.cProtos, needsWrapper p = true → hasWrapper Gen.wrappers p = true) ∧
     (∀ w ∈ Gen.wrappers, wrapperOk Gen.cProtos Gen.wrappers Gen.structDtorRelease w = true) := by
   constructor <;> decide +kernel
+
+/-- **wrapper_returns_c_result.**  The part of the table check that the first clause of the property is about, on its
+    own: every callable entry of the extracted table (template instantiation, free function, method, copy
+    constructor) hands back the term `retOk` asks for the return type of its C function — the C result itself
+    for `double`/`int`, `std::complex<double>(rv.re, rv.im)`, `std::string(rv)`, the `n` strings `list[0..n-1]` in
+    order, an object of the class of the C struct built from the C result — and, when the C function can report an
+    error, calls `_process_error(error)` as the statement right after the call, i.e. before the result is used. -/
+theorem wrapper_returns_c_result :
+    ∀ w ∈ Gen.wrappers, (w.kind = .inst ∨ w.kind = .plain ∨ w.kind = .method ∨ (w.kind = .ctor ∧ w.callee = "Crystal_MakeCopy")) →
+      ∃ p, findProto Gen.cProtos w.callee = some p ∧ retOk w.kind p.ret p.params w.ret = true ∧
+        (p.hasErr = true → w.checked = true) ∧ forwarded w.args = List.range w.params.length := by
+  intro w hw hk
+  obtain ⟨p, h1, h2, h3, h4, _⟩ := concreteOk_ret Gen.cProtos w
+    (wrapperOk_concrete Gen.cProtos Gen.wrappers Gen.structDtorRelease w (wrapper_table_complete.2 w hw) hk)
+  exact ⟨p, h1, h2, h3, h4⟩
+
+/-- **field_maps_complete.**  "An object with the same field contents", over the member-initialiser lists extracted
+    from the header and the struct declarations extracted from `include/*.h`: each of the five C structs has its
+    class with a converting constructor; in it every C field initialises the member of its own name with its own
+    contents (arrays: the first `count` elements in order, `count` being the field the C header documents), the
+    class has no other data member, every member is initialised once.  The copy constructor of `Crystal::Struct`
+    copies every member from the member of the same name; the public constructor builds the C struct field by
+    field from the values it stores in the members (atoms element by element, field by field). -/
+theorem field_maps_complete :
+    (∀ cp ∈ classPod, ∃ m ∈ Gen.classMaps, m.cls = cp.1 ∧ m.src = cp.2) ∧
+    (∀ m ∈ Gen.classMaps, classMapOk Gen.cStructs Gen.classMembers Gen.ownCtors m = true) ∧
+    atomVectorOk Gen.helpers = true := by
+  refine ⟨?_, ?_, ?_⟩ <;> decide +kernel
+
+/-! ### What the extracted return terms mean
+
+`evalRet` (Hand/Value.lean) reads a return term as a function from what the C call produced (`COut`: the returned
+value, and what it stored through its output arguments) to the value the wrapper hands back; converting constructors
+are read through the extracted member-initialiser lists.  `SameValue` / `SameContents` (Spec/Value.lean) is the first
+clause of the property; `OutFits` says that the C result is well formed for its declared type (every field present,
+every array as long as its count field says — the C side's obligation). -/
+
+/-- **value_tables_ok.**  The extracted class maps, as the evaluator consults them: every C struct's class has a
+    converting constructor that passes `podMapOk`, and `Atom`'s reads every field of `Crystal_Atom` into the member
+    of the same name. -/
+theorem value_tables_ok :
+    mapsOk Gen.cStructs Gen.classMembers Gen.classMaps = true ∧ atomsOk Gen.cStructs Gen.classMaps = true := by
+  constructor <;> decide +kernel
+
+/-- **wrapper_value_same_as_c.**  For every callable entry of the extracted table, with `p` the prototype of its C
+    function, and every well-formed C result `o`: the value the entry's return term evaluates to is the same value
+    as C's — equal for `double`, `int`, `char *` (as `std::string`) and string lists (as `std::vector<std::string>`),
+    `std::complex(re, im)` of the `xrlComplex {re, im}`, and for struct pointers an object whose member of the name of
+    each C field holds that field's contents (the atom array: as many atoms, each with every `Crystal_Atom` field
+    unchanged). -/
+theorem wrapper_value_same_as_c :
+    ∀ w ∈ Gen.wrappers, (w.kind = .inst ∨ w.kind = .plain ∨ w.kind = .method ∨ (w.kind = .ctor ∧ w.callee = "Crystal_MakeCopy")) →
+      ∀ p, findProto Gen.cProtos w.callee = some p → ∀ o : COut, OutFits Gen.cStructs p.ret p.params o →
+        SameValue Gen.cStructs (atomInits Gen.classMaps) w.kind p.ret o (evalRet Gen.classMaps o w.ret) := by
+  intro w hw hk p hp o ho
+  obtain ⟨p', hp', hret, _, _⟩ := wrapper_returns_c_result w hw hk
+  rw [hp] at hp'
+  cases hp'
+  exact ret_same_value Gen.cStructs Gen.classMembers Gen.classMaps value_tables_ok.1 value_tables_ok.2
+    w.kind p.ret p.params w.ret hret o ho
+
+/-- **wrap_spec_table.**  The first two clauses of the property about the extracted table itself, the conversion being
+    the entry's own return term and the error check the entry's own `checked` flag (`wrapEntry`): for every callable
+    entry whose C function can report an error, every C behaviour `f` and every argument — if C leaves the error
+    slot empty (and its result is well formed) the wrapper returns a value that is the same as C's; if C sets an
+    error `e` the wrapper throws `specExn e` (class by code, C's message); and it throws only then. -/
+theorem wrap_spec_table {A : Type} :
+    ∀ w ∈ Gen.wrappers, (w.kind = .inst ∨ w.kind = .plain ∨ w.kind = .method ∨ (w.kind = .ctor ∧ w.callee = "Crystal_MakeCopy")) →
+      ∀ p, findProto Gen.cProtos w.callee = some p → p.hasErr = true → ∀ (f : CFun A COut) (a : A),
+        ((f a).slot = .empty → OutFits Gen.cStructs p.ret p.params (f a).val →
+          ∃ v, (wrapEntry Gen.pe w ⟨fun o => evalRet Gen.classMaps o w.ret, true⟩ f a).out = .ok v ∧
+            SameValue Gen.cStructs (atomInits Gen.classMaps) w.kind p.ret (f a).val v) ∧
+        (∀ e, (f a).slot = .full e →
+          (wrapEntry Gen.pe w ⟨fun o => evalRet Gen.classMaps o w.ret, true⟩ f a).out = .error (specExn e)) ∧
+        ((∃ x, (wrapEntry Gen.pe w ⟨fun o => evalRet Gen.classMaps o w.ret, true⟩ f a).out = .error x) ↔
+          ∃ e, (f a).slot = .full e) := by
+  intro w hw hk p hp he f a
+  obtain ⟨p', hp', _, hchk, _⟩ := wrapper_returns_c_result w hw hk
+  rw [hp] at hp'
+  cases hp'
+  have hc : w.checked = true := hchk he
+  have hs := wrap_spec_extracted ⟨fun o => evalRet Gen.classMaps o w.ret, true⟩ f a
+  simp only [wrapEntry, hc, if_true]
+  refine ⟨fun h0 hfit => ⟨_, hs.1.mp h0, wrapper_value_same_as_c w hw hk p hp (f a).val hfit⟩, hs.2.2, hs.2.1.symm⟩
+
+/-- non-vacuity of `OutFits` and of the evaluation: a parsed compound (2 elements) converted through the extracted
+    `compoundData` constructor, and an `xrlComplex` -/
+example : structFits Gen.cStructs ⟨"compoundData", [("nElements", .scalar), ("Elements", .array), ("molarMass", .scalar)]⟩
+    [("nElements", .num 2), ("Elements", .nums [1, 8]), ("molarMass", .num 18)] = true := by decide +kernel
+example : evalRet Gen.classMaps ⟨.obj [("nElements", .num 2), ("nAtomsAll", .num 3), ("Elements", .nums [1, 8]),
+      ("massFractions", .nums [11, 89]), ("nAtoms", .nums [2, 1]), ("molarMass", .num 18)], fun _ => 0⟩ (.object "compoundData" .res)
+    = .obj [("nElements", .num 2), ("Elements", .nums [1, 8]), ("massFractions", .nums [11, 89]), ("nAtomsAll", .num 3),
+      ("nAtoms", .nums [2, 1]), ("molarMass", .num 18)] := by decide +kernel
+example : evalRet Gen.classMaps ⟨.obj [("re", .num 3), ("im", .num 4)], fun _ => 0⟩ (.complex (.field .res "re") (.field .res "im"))
+    = .cplx 3 4 := by decide +kernel
+example : OutFits Gen.cStructs .cplx [] ⟨.obj [("re", .num 3), ("im", .num 4)], fun _ => 0⟩ := ⟨3, 4, rfl⟩
+/-- non-vacuity of the premises of `wrapper_value_same_as_c` / `wrap_spec_table`: the table has callable entries of every
+    return type the property speaks about, each with its prototype, and those can report errors -/
+example : [Ty.double, .int, .cplx, .cstr, .strlist, .cd, .cdn, .rnd, .cs].all (fun t =>
+    Gen.wrappers.any (fun w => (w.kind == .plain || w.kind == .inst || w.kind == .method) &&
+      (match findProto Gen.cProtos w.callee with | some p => p.ret == t && p.hasErr | none => false))) = true := by decide +kernel
+
+/-- non-vacuity: the tables the two theorems range over are inhabited as expected -/
+example : Gen.classMaps.length ≥ 7 ∧ Gen.cStructs.length = 6 ∧ Gen.ownCtors.length = 1 ∧
+    (Gen.wrappers.filter (fun w => w.ret != .res && w.ret != .none)).length ≥ 14 := by decide +kernel
 
 /-- non-vacuity: the table is not empty and contains wrappers of every kind -/
 example : Gen.cProtos.length ≥ 100 ∧ (Gen.wrappers.filter (fun w => w.kind == .inst)).length ≥ 90 ∧
